@@ -63,7 +63,7 @@ def run_one(path, func, timeout, twin=False):
     env = dict(os.environ)
     env["PYTHONDONTWRITEBYTECODE"] = "1"
     try:
-        p = subprocess.run(cmd, capture_output=True, text=True, timeout=timeout * 3 + 120, env=env, cwd=os.path.dirname(path))
+        p = subprocess.run(cmd, capture_output=True, text=True, timeout=int(timeout * 1.5) + 120, env=env, cwd=os.path.dirname(path))
         out = p.stdout + "\n" + p.stderr
     except subprocess.TimeoutExpired as e:
         return {"func": func, "status": "unknown", "message": "crosshair process exceeded its wall limit", "paths": 0,
